@@ -648,6 +648,7 @@ tpt_ev_post(int op, tp_event_p ev, tp_udata_p tp_udata) {
 	    NULL == tp_udata)
 		return (EINVAL);
 
+	LIBLCB_VERIF_POINT("ev.post", tp_udata->tpt, tp_udata, ((uint64_t)op | ((uint64_t)ev->event << 8) | ((uint64_t)ev->flags << 16)));
 	epev.events = (EPOLLHUP | EPOLLERR);
 	epev.data.ptr = (void*)tp_udata;
 
@@ -834,6 +835,7 @@ tpt_loop(tpt_p tpt) {
 	/* Main loop. */
 	while (TP_THREAD_STATE_RUNNING == tpt->state) {
 		tpt->tick_cnt ++; /* Tic-toc. */
+		LIBLCB_VERIF_POINT("loop.turn", tpt, 0, tpt->state);
 		cnt = epoll_wait((int)tpt->io_fd, &epev, 1, -1 /* infinite wait. */);
 		if (0 == cnt) /* Timeout. */
 			continue;
@@ -867,6 +869,7 @@ tpt_loop(tpt_p tpt) {
 				continue;
 			}
 		}
+		LIBLCB_VERIF_POINT("loop.gate", tpt, tp_udata, tp_udata->tpdata);
 		if (0 != (TPDATA_F_DISABLED & tp_udata->tpdata))
 			continue; /* Do not process disabled events. */
 		/* Translate ep event to thread poll event. */
@@ -926,6 +929,7 @@ tpt_loop(tpt_p tpt) {
 		}
 
 		/* Do callback. */
+		LIBLCB_VERIF_POINT("loop.cb", tpt, tp_udata, ((uint64_t)ev.event | ((uint64_t)ev.flags << 16)));
 		tp_udata->cb_func(&ev, tp_udata);
 	} /* End Main loop. */
 	return;
@@ -1082,6 +1086,7 @@ tp_create(tp_settings_p s, tp_p *ptp) {
 		goto err_out;
 	}
 	tp->pvt->state = TP_THREAD_STATE_RUNNING;
+	LIBLCB_VERIF_POINT("create.pvt_running", tp, tp->pvt, 0);
 	if (NULL != s->tpt_on_start) {
 		s->tpt_on_start(tp->pvt);
 	}
@@ -1101,10 +1106,12 @@ tp_create(tp_settings_p s, tp_p *ptp) {
 		}
 	}
 
+	LIBLCB_VERIF_POINT("create.ok", tp, 0, 0);
 	(*ptp) = tp;
 	return (0);
 
 err_out:
+	LIBLCB_VERIF_POINT("create.err", tp, 0, error);
 	tp_destroy(tp);
 	return (error);
 }
@@ -1113,15 +1120,18 @@ static void
 tpt_msg_shutdown_cb(tpt_p tpt, void *udata __unused) {
 
 	tpt->state = TP_THREAD_STATE_STOPING;
+	LIBLCB_VERIF_POINT("shutdown.cb", tpt, 0, 0);
 }
 void
 tp_shutdown(tp_p tp) {
 
 	if (NULL == tp)
 		return;
+	LIBLCB_VERIF_POINT("shutdown.check", tp, 0, tp->shutdown);
 	if (0 != tp->shutdown)
 		return;
 	tp->shutdown ++;
+	LIBLCB_VERIF_POINT("shutdown.set", tp, 0, tp->shutdown);
 	/* Private virtual thread. */
 	tp->pvt->state = TP_THREAD_STATE_STOP;
 	if (NULL != tp->s.tpt_on_stop) {
@@ -1131,6 +1141,7 @@ tp_shutdown(tp_p tp) {
 	for (size_t i = 0; i < tp->s.threads_max; i ++) {
 		if (0 == tpt_is_running(&tp->threads[i]))
 			continue;
+		LIBLCB_VERIF_POINT("shutdown.send", tp, &tp->threads[i], i);
 		tpt_msg_send(&tp->threads[i], NULL, 0,
 		    tpt_msg_shutdown_cb, NULL);
 	}
@@ -1151,9 +1162,12 @@ tp_shutdown_wait(tp_p tp) {
 		return (EDEADLK);
 
 	for (size_t i = 0; i < tp->s.threads_max; i ++) {
+		LIBLCB_VERIF_POINT("wait.state", tp, &tp->threads[i], tp->threads[i].state);
 		if (TP_THREAD_STATE_STOP == tp->threads[i].state)
 			continue;
+		LIBLCB_VERIF_POINT("wait.join", tp, &tp->threads[i], tp->threads[i].pt_id);
 		error = pthread_join(tp->threads[i].pt_id, NULL);
+		LIBLCB_VERIF_POINT("wait.joined", tp, &tp->threads[i], error);
 		switch (error) {
 		case 0: /* No error. */
 			break;
@@ -1190,6 +1204,7 @@ tp_destroy(tp_p tp) {
 	if (0 != error)
 		return (error);
 	/* Free resources. */
+	LIBLCB_VERIF_POINT("destroy.free", tp, 0, 0);
 	tpt_data_uninit(tp->pvt);
 	for (size_t i = 0; i < tp->s.threads_max; i ++) {
 		tpt_data_uninit(&tp->threads[i]);
@@ -1234,10 +1249,12 @@ tp_threads_create(tp_p tp, const int skip_first) {
 		if (NULL == tpt->tp)
 			continue;
 		tpt->state = TP_THREAD_STATE_STARTING;
+		LIBLCB_VERIF_POINT("tcreate.starting", tp, tpt, 0);
 		if (0 == pthread_create_eagain(&tpt->pt_id, NULL,
 		    tp_thread_proc, tpt)) {
 		} else {
 			tpt->state = TP_THREAD_STATE_STOP;
+			LIBLCB_VERIF_POINT("tcreate.failed", tp, tpt, 0);
 		}
 	}
 	return (0);
@@ -1284,8 +1301,10 @@ tp_thread_proc(void *data) {
 		return (NULL);
 	}
 
+	LIBLCB_VERIF_POINT("proc.enter", tpt, 0, 0);
 	tpt->tp->threads_cnt ++;
 	tpt->state = TP_THREAD_STATE_RUNNING;
+	LIBLCB_VERIF_POINT("proc.running", tpt, 0, 0);
 
 	snprintf(thr_name, sizeof(thr_name), "%s: %zu",
 	    tpt->tp->s.name, tpt->thread_num);
@@ -1319,12 +1338,14 @@ tp_thread_proc(void *data) {
 	}
 #endif
 
+	LIBLCB_VERIF_POINT("proc.onstart", tpt, 0, 0);
 	if (NULL != tpt->tp->s.tpt_on_start) {
 		tpt->tp->s.tpt_on_start(tpt);
 	}
 
 	tpt_loop(tpt);
 
+	LIBLCB_VERIF_POINT("proc.onstop", tpt, 0, 0);
 	if (NULL != tpt->tp->s.tpt_on_stop) {
 		tpt->tp->s.tpt_on_stop(tpt);
 	}
@@ -1333,8 +1354,11 @@ tp_thread_proc(void *data) {
 	pthread_setspecific(tp_tls_key_tpt, NULL);
 	pthread_self_name_set(NULL);
 	memset(&tpt->pt_id, 0x00, sizeof(pthread_t));
+	LIBLCB_VERIF_POINT("proc.ptid0", tpt, 0, 0);
 	tpt->state = TP_THREAD_STATE_STOP; /* Reset state on exit. */
+	LIBLCB_VERIF_POINT("proc.stop", tpt, 0, 0);
 	tpt->tp->threads_cnt --;
+	LIBLCB_VERIF_POINT("proc.exit", tpt, 0, 0);
 
 	return (NULL);
 }
